@@ -349,6 +349,8 @@ fn n_labels(owner: &MName) -> u8 {
 }
 
 const N_HIER: u64 = 8;
+/// more upstream requests for one query than this = the validation went around a loop
+const LOOP_CALLS: u32 = 9;
 
 /// hierarchy family: root -> tld -> { leaf (signed), island (unsigned), evil (signed, adversary's),
 /// unsup (algorithm 16) }; variants differ in key counts / roles / algorithms / anchors
@@ -1041,11 +1043,14 @@ struct Script {
     cx_prov: Mutex<HashMap<Vec<u8>, SigProv>>,
     /// every (query -> response) the validator consulted, first occurrence
     log: Mutex<BTreeMap<(MName, u16), Resp>>,
+    /// how often each query was sent upstream
+    calls: Mutex<BTreeMap<(MName, u16), u32>>,
     neg_as_error: bool,
 }
 
 impl Script {
     fn respond(&self, q: &MName, qtype: u16) -> Resp {
+        *self.calls.lock().unwrap().entry((q.clone(), qtype)).or_insert(0) += 1;
         if let Some(r) = self.log.lock().unwrap().get(&(q.clone(), qtype)) {
             return r.clone();
         }
@@ -1322,29 +1327,31 @@ fn secure_is_genuine(w: &World, sec: &[Record]) -> Option<String> {
         if w.zones.iter().any(|z| z.attacker && is_anc_or_self(&z.apex, &owner)) {
             continue; // the adversary's own, properly delegated namespace: whatever its keys sign is "genuine"
         }
+        // the same (owner, type) can exist on both sides of a zone cut (NSEC, NS): any of them will do
+        let owner_ref = &owner;
+        let sets = |t: u16| w.sets.iter().filter(move |g| &g.owner == owner_ref && g.rtype == t);
         if let RData::DNSSEC(DNSSECRData::RRSIG(s)) = &r.data {
             let tc = u16::from(s.input().type_covered);
-            let ok = w.genuine_set(&owner, tc).map_or(false, |g| g.sigs.iter().any(|x| same_rr(x, r)));
-            if !ok {
-                return Some(format!("RRSIG {} covering type {} is Secure but is not a genuine signature record", show(&owner), tc));
+            if !sets(tc).any(|g| g.sigs.iter().any(|x| same_rr(x, r))) {
+                return Some(format!("RRSIG {} covering type {} is Secure but is not a genuine signature record", r.name, tc));
             }
             continue;
         }
         let t = u16::from(r.record_type());
-        let Some(g) = w.genuine_set(&owner, t) else {
-            return Some(format!("record {} type {} is Secure but no such RRset exists in the hierarchy", show(&owner), t));
+        if sets(t).next().is_none() {
+            return Some(format!("record {} type {} is Secure but no such RRset exists in the hierarchy", r.name, t));
+        }
+        let Some(g) = sets(t).find(|g| g.recs.iter().any(|x| same_rr(x, r))) else {
+            return Some(format!("record {} type {} is Secure but its content is not the genuine one: {}", r.name, t, r.data));
         };
         if !w.zones[g.zone].signed || w.zones[g.zone].unsupported {
-            return Some(format!("record {} type {} of an unsigned zone is Secure", show(&owner), t));
-        }
-        if !g.recs.iter().any(|x| same_rr(x, r)) {
-            return Some(format!("record {} type {} is Secure but its content is not the genuine one: {}", show(&owner), t, r.data));
+            return Some(format!("record {} type {} of an unsigned zone is Secure", r.name, t));
         }
         for x in &g.recs {
             if !sec.iter().any(|y| same_rr(x, y) && y.proof == Proof::Secure) {
                 return Some(format!(
                     "RRset {} type {} is Secure but incomplete: genuine record {} was removed",
-                    show(&owner),
+                    r.name,
                     t,
                     x.data
                 ));
@@ -1601,6 +1608,7 @@ fn genuine_run(hid: u64, q: &MName, qtype: u16) -> (Obs, Vec<(MName, u16)>) {
         faults: vec![],
         cx_prov: Mutex::new(HashMap::new()),
         log: Mutex::new(BTreeMap::new()),
+        calls: Mutex::new(BTreeMap::new()),
         neg_as_error: false,
     });
     let o = run_impl(&s, q, qtype);
@@ -1744,6 +1752,7 @@ fn case(seed: u64, index: u64) -> CaseOut {
         faults: faults.clone(),
         cx_prov: Mutex::new(HashMap::new()),
         log: Mutex::new(BTreeMap::new()),
+        calls: Mutex::new(BTreeMap::new()),
         neg_as_error,
     });
     let obs = run_impl(&script, &q, qtype);
@@ -1837,6 +1846,14 @@ fn case(seed: u64, index: u64) -> CaseOut {
         }
     }
     let coq = format!("CaseP {}", coq_pb(&bytes));
+    // self-referential inputs (e.g. a zone's DS response carrying an RRset signed by that zone itself) send the
+    // validator around a loop until the depth backstop; there verdicts depend on the nesting depth and the
+    // validation cache (not modelled) decides which one is reused: no correspondence claim for them, the
+    // oracle still applies
+    let max_calls = script.calls.lock().unwrap().values().copied().max().unwrap_or(0);
+    let looping = max_calls > LOOP_CALLS;
+    let coq = if looping { format!("CaseP {}", coq_pb(&[2u8])) } else { coq };
+    let kind = if looping { format!("loop-{kind}") } else { kind };
     let ftext = faults
         .iter()
         .map(|f| format!("{}/{}:{}", show(&f.q), f.qtype, edit_text(&f.edit)))
@@ -1855,7 +1872,7 @@ fn case(seed: u64, index: u64) -> CaseOut {
     CaseOut {
         index,
         coq,
-        text: format!("seed={seed} index={index} {kind} {text_in} consulted={} tampered={} => {obs_text}", log.len(), tampered),
+        text: format!("seed={seed} index={index} {kind} {text_in} consulted={} maxcalls={} tampered={} => {obs_text}", log.len(), max_calls, tampered),
         key: text_in,
         nontrivial: log.len() >= 2,
         kind: format!("{kind}/{qkind}"),
